@@ -110,6 +110,13 @@ class NoDefaultAll:
     a: int
     b: int
 
+@with_fields_set
+@dataclass(frozen=True)
+class Frozen:
+    a: int
+    b: int = 0
+    c: Optional[int] = None
+
 @dataclass
 class KwBase:
     a: int
@@ -143,6 +150,8 @@ POOL: Dict[str, dict] = {
     "NoDefaultAll": dict(params=[("a", False, None), ("b", False, None)]),
     # keyword-only fields are moved to the end of the generated __init__ (3.10+): positional arguments
     # map to the signature, not to the declaration order
+    # assignments are refused (FrozenInstanceError) and must leave the object and its set untouched
+    "Frozen": dict(params=[("a", False, None), ("b", True, 0), ("c", True, None)], frozen=True),
     "KwChild": dict(params=[("a", False, None), ("name", True, 0), ("debug", True, 0)], kwonly={"debug"}),
     "KwMixed": dict(params=[("a", False, None), ("b", True, 0), ("flag", True, 0)], kwonly={"flag"}),
 }
@@ -178,6 +187,8 @@ class Model:
         elif kind == "overwrite":
             self.set = {op[1]}
         elif kind == "assign":
+            if self.spec.get("frozen"):
+                return self  # refused: nothing changes
             self.values[op[1]] = op[2]
             self.set.add(op[1])
         elif kind in ("replace", "dc_replace"):
@@ -212,7 +223,13 @@ def apply_real(mod, obj, op):
     if kind == "overwrite":
         return set_fields(obj, op[1], overwrite=True)
     if kind == "assign":
-        setattr(obj, op[1], op[2])
+        import dataclasses
+
+        try:
+            setattr(obj, op[1], op[2])
+        except dataclasses.FrozenInstanceError:
+            if not POOL[type(obj).__name__].get("frozen"):
+                raise
         return obj
     if kind == "replace":
         import apischema.dataclasses as adc
